@@ -6,6 +6,7 @@ setting, every objective and every stream of trial vectors.
 -/
 import MysticVerif.Proofs.ClosedLoop
 import MysticVerif.Props.C01
+import MysticVerif.Props.C01Ensemble
 import MysticVerif.Props.C05
 
 namespace MysticVerif.SolveProps
